@@ -439,6 +439,7 @@ func runC03(cfg Config) {
 	runGCSRead(cfg, rep, m, rng)
 	runC03Consumers(cfg, rep, rng)
 	c03Held(cfg, rep, rng, s3f, sshWrap, sshErr == nil)
+	storeOptsC03(cfg, rep, m, rng)
 	rep.Write(cfg.Out)
 }
 
